@@ -25,17 +25,17 @@ RULE = (
 ASSUMPTIONS = [
     "the multilinear core is compared exactly (int64 reference) for banks with entries in {0,+-1}; normalised banks and the bias part with tolerance 1e-5 relative",
     "L1 for the bias part: generic real inputs derived from VERIF_SEED (the bias rule is affine in the input, parameters set away from their initial values)",
-    "L2: d in {2,3}; types k<=2 (d=3: k<=1); deviation bound quick 2 (d=2 and d=3), thorough 4 (d=3: 3)",
+    "L2: d in {2,3}; types k<=2 (d=3: k<=1); deviation bound quick 2 (d=2 and d=3), thorough 3 (d=2 and d=3)",
     "the input holds exactly the declared input signature (the layer's precondition)",
 ]
 
 
 def bounds(tier):
-    return {"dims_d2": {k: (v if k != "sig" else f"{len(v)} signatures") for k, v in CL.dims(2, True).items()}, "dims_d3": {k: (v if k != "sig" else f"{len(v)} signatures") for k, v in CL.dims(3, True).items()}, "deviation_bound": {"quick": {"d2": 2, "d3": 2}, "thorough": {"d2": 4, "d3": 3}}[tier]}
+    return {"dims_d2": {k: (v if k != "sig" else f"{len(v)} signatures") for k, v in CL.dims(2, True).items()}, "dims_d3": {k: (v if k != "sig" else f"{len(v)} signatures") for k, v in CL.dims(3, True).items()}, "deviation_bound": {"quick": {"d2": 2, "d3": 2}, "thorough": {"d2": 3, "d3": 3}}[tier]}
 
 
 def cases(tier, seed):
-    plan = {"quick": {2: 2, 3: 2}, "thorough": {2: 4, 3: 3}}[tier]
+    plan = {"quick": {2: 2, 3: 2}, "thorough": {2: 3, 3: 3}}[tier]
     return CL.gen_cases(tier, plan, True)
 
 
